@@ -526,7 +526,7 @@ public:
         {
             return theChar > s_lastSpecial ?
                         false :
-                        s_specialChars[theChar] == eCRFb;
+                        s_specialChars[theChar] >= eForb;
         }
 
     private:
